@@ -24,25 +24,29 @@ VARIABLES st, bad, n, run, hist, ended
 vars == <<st, bad, n, run, hist, ended>>
 
 P(a) == a   \* readability: paths are tuples
-Tree(gi, d, dgi, dx, dy, f) ==
-  LET seq == <<gi, d, dgi, dx, dy, f>> IN [p \in Paths |-> seq[Pos(p)]]
+Tree(gi, d, dgi, dx, dxz, dy, f) ==
+  LET seq == <<gi, d, dgi, dx, dxz, dy, f>> IN [p \in Paths |-> seq[Pos(p)]]
 A == Absent
 AllTrees == <<
-  Tree(A, A, A, A, A, A),                                        \* 1 empty
-  Tree(A, A, A, A, A, File(1, FALSE)),                           \* 2 f
-  Tree(A, A, A, File(1, FALSE), A, File(2, TRUE)),               \* 3 d/x, f (exec)
-  Tree(A, File(1, FALSE), A, A, A, A),                           \* 4 d as a file
-  Tree(A, A, A, File(2, FALSE), File(1, FALSE), File(1, FALSE)), \* 5 d/x, d/y, f
-  Tree(A, Sym("out"), A, A, A, File(1, FALSE)),                  \* 6 d -> outside, f
-  Tree(File(3, FALSE), A, A, File(1, FALSE), A, A),              \* 7 .gitignore "x", d/x tracked
-  Tree(A, A, A, File(1, FALSE), A, Conf(<<1, 0, 2>>)),           \* 8 conflict at f
-  Tree(File(2, FALSE), A, A, Conf(<<1, 2, 0>>), File(2, TRUE), A), \* 9 .gitignore "d/", conflict at d/x
-  Tree(A, A, File(5, FALSE), A, File(1, FALSE), Sym("f")) >>     \* 10 d/.gitignore, d/y, f symlink
+  Tree(A, A, A, A, A, A, A),                                        \* 1 empty
+  Tree(A, A, A, A, A, A, File(1, FALSE)),                           \* 2 f
+  Tree(A, A, A, File(1, FALSE), A, A, File(2, TRUE)),               \* 3 d/x, f (exec)
+  Tree(A, File(1, FALSE), A, A, A, A, A),                           \* 4 d as a file
+  Tree(A, A, A, File(2, FALSE), A, File(1, FALSE), File(1, FALSE)), \* 5 d/x, d/y, f
+  Tree(A, Sym("out"), A, A, A, A, File(1, FALSE)),                  \* 6 d -> outside, f
+  Tree(File(3, FALSE), A, A, File(1, FALSE), A, A, A),              \* 7 .gitignore "x", d/x tracked
+  Tree(A, A, A, File(1, FALSE), A, A, Conf(<<1, 0, 2>>)),           \* 8 conflict at f
+  Tree(File(2, FALSE), A, A, Conf(<<1, 2, 0>>), A, File(2, TRUE), A), \* 9 .gitignore "d/", conflict at d/x
+  Tree(A, A, File(5, FALSE), A, A, File(1, FALSE), Sym("f")),       \* 10 d/.gitignore, d/y, f symlink
+  Tree(File(2, FALSE), A, A, File(1, FALSE), A, File(2, FALSE), A), \* 11 .gitignore "d/", d/x and d/y tracked
+  Tree(File(2, FALSE), A, A, A, File(1, TRUE), A, A),               \* 12 .gitignore "d/", d/x/z tracked (two levels inside)
+  Tree(A, A, A, A, File(2, FALSE), File(1, FALSE), A) >>            \* 13 d/x/z, d/y
 AllSparse == << {<<>>}, {<<"d">>}, {<<"f">>}, {<<"d", "x">>, <<"f">>}, {<<"gi">>, <<"d", "y">>}, {} >>
 
 AllEditPaths == Paths
 SparseEditPaths == {<<"f">>, <<"d">>, <<"d", "x">>}
 IgnoreEditPaths == {<<"gi">>, <<"d">>}
+InsideIgnoredPaths == {<<"d", "x">>, <<"d", "x", "z">>, <<"d", "y">>}
 IgnoreIdsOf(p) == IF Len(p) = 1 THEN RootIgnore ELSE DirIgnore
 
 (* an action instance *)
@@ -54,6 +58,7 @@ Edits ==
   \cup {[a |-> "Chmod", p |-> p, c |-> 0, t |-> ""] : p \in EditPaths}
   \cup {[a |-> "Symlink", p |-> p, c |-> 0, t |-> t] : p \in EditPaths, t \in SymTargets}
   \cup {[a |-> "Delete", p |-> p, c |-> 0, t |-> ""] : p \in EditPaths}
+  \cup {[a |-> "Mkfifo", p |-> p, c |-> 0, t |-> ""] : p \in {q \in EditPaths : ~IsIgnorePath(q)}}
   \cup {[a |-> "FileToDir", p |-> p, c |-> 0, t |-> ""] : p \in {q \in EditPaths : CanBeDir(q)}}
   \cup {[a |-> "RmTree", p |-> p, c |-> 0, t |-> ""] : p \in {q \in EditPaths : CanBeDir(q)}}
   \cup {[a |-> "DirToFile", p |-> p, c |-> c, t |-> ""] : p \in {q \in EditPaths : CanBeDir(q)}, c \in Contents}
@@ -65,6 +70,7 @@ EditEnabled(s, e) ==
        [] e.a = "Chmod" -> CanChmod(s, e.p)
        [] e.a = "Symlink" -> CanSymlink(s, e.p, e.t)
        [] e.a = "Delete" -> CanDelete(s, e.p)
+       [] e.a = "Mkfifo" -> CanMkfifo(s, e.p)
        [] e.a = "FileToDir" -> CanFileToDir(s, e.p)
        [] e.a = "RmTree" -> CanRmTree(s, e.p)
        [] e.a = "DirToFile" -> CanDirToFile(s, e.p, e.c)
@@ -73,6 +79,7 @@ EditDo(s, e) ==
     [] e.a = "Chmod" -> DoChmod(s, e.p)
     [] e.a = "Symlink" -> DoSymlink(s, e.p, e.t)
     [] e.a = "Delete" -> DoDelete(s, e.p)
+    [] e.a = "Mkfifo" -> DoMkfifo(s, e.p)
     [] e.a = "FileToDir" -> DoFileToDir(s, e.p)
     [] e.a = "RmTree" -> DoRmTree(s, e.p)
     [] e.a = "DirToFile" -> DoDirToFile(s, e.p, e.c)
@@ -87,7 +94,8 @@ SnapshotVerdict(s, s2) ==
   LET v == SnapshotContract(s, s2) IN
   IF v = "ok" \/ (v = "Panic:Snapshot" /\ ~Strict
                     /\ (StaleStateShape(s) \/ DirConflictShape(s) \/ TrackedDirShape(s)))
-              \/ (v = "SnapshotOK" /\ ~Strict /\ StaleIgnoredShape(s)) THEN "" ELSE v
+              \/ (v = "SnapshotOK" /\ ~Strict /\ StaleIgnoredShape(s))
+              \/ (v = "Error:Snapshot" /\ ~Strict /\ NotDirShape(s)) THEN "" ELSE v
 CheckOutVerdict(s, new, s2) ==
   LET v == CheckOutContract(s, new, s2) IN
   IF v = "Panic:CheckOut" /\ ~Strict /\ UnsortedShape(s, new) THEN ""
